@@ -201,6 +201,20 @@ def gen_ir(g, rng, cov, n_modules=None, entry_later=False, with_aux=True):
                 except Exception:  # noqa: BLE001
                     continue
                 key = rng.choice(["k", "table", "é", "", "functionBlocks", "x" * 20]) + str(rng.randrange(3))
+                if rng.random() < 0.2:
+                    # a table whose type involves a name this API has no codec for: the value is the raw blob, carried verbatim
+                    tn, raw = rng.choice([
+                        ("foo", bytes(rng.randrange(256) for _ in range(rng.choice([0, 3, 9])))),
+                        ("sequence<foo>", (2).to_bytes(8, "little") + bytes(rng.randrange(256) for _ in range(5))),
+                        ("mapping<string,foo<bar>>", (1).to_bytes(8, "little") + (2).to_bytes(8, "little") + b"k1" + b"\x11\x22\x33"),
+                        ("tuple<uint8_t,string,foo>", b"\x07" + (1).to_bytes(8, "little") + b"s" + b"\xde\xad"),
+                    ])
+                    t, v = ("__raw__", tn), g.serialization.UnknownData(raw)
+                    cont.aux_data[key] = g.AuxData(v, tn)
+                    auxinfo = [a for a in auxinfo if not (a[0] is cont and a[1] == key)]
+                    auxinfo.append((cont, key, t, v))
+                    cov.hit("aux-unknown-type")
+                    continue
                 cont.aux_data[key] = g.AuxData(v, auxval.type_str(t))
                 auxinfo = [a for a in auxinfo if not (a[0] is cont and a[1] == key)]
                 auxinfo.append((cont, key, t, v))
